@@ -484,10 +484,18 @@ func (world) Run(input any) kit.Case {
 	verdict := false
 	prev := s.Project()
 	prev.Pending, prev.Writes, prev.NRpc = [3]bool{}, 0, 0
+	staleRestart := false
 	for _, a := range h.Actions {
+		if a.Op == "begin" && a.C == "exp" && s.StaleCompletedExp() {
+			staleRestart = true
+		}
 		s.Apply(a)
 		p := s.Project()
 		steps = append(steps, "("+a.Coq()+", "+p.CoqDelta(prev)+")")
+		if os.Getenv("VERIF_TRACE") != "" {
+			js, _ := json.Marshal(map[string]any{"exp": p.Exp, "sug": p.Sug, "infra": p.Infra, "pending": p.Pending, "ntrials": len(p.Trials)})
+			fmt.Fprintf(os.Stderr, "%d %s => %s\n", len(steps)-1, a.Coq(), js)
+		}
 		prev = p
 		stats[a.Op]++
 		if a.Op == "write" && a.Inj {
@@ -529,6 +537,12 @@ func (world) Run(input any) kit.Case {
 			if k := kit.KeyIf("C16", "failed-suggestion-not-cleaned", h.Cfg.Resume != "LongRunning"); k != "" {
 				c.Keys["C16"] = k
 			}
+		}
+	}
+	if staleRestart {
+		// F18: an experiment reconcile ran on a cached completed experiment after the stored one had been restarted
+		if k := kit.KeyIf("C04", "cleanup-on-stale-completed-experiment", h.Cfg.Resume == "FromVolume"); k != "" {
+			c.Keys["C04"] = k
 		}
 	}
 	c.Nontrivial = maxTrials >= 3 && (verdict || stats["fault"] > 0 || stats["abort"] > 0 || s.Conflicts > 0)
